@@ -310,7 +310,7 @@ func init() {
 		tier := ev.Tier()
 		depth, deadline, amounts := 4, 100*time.Second, "{50,100,200}"
 		if tier == "thorough" {
-			depth, deadline, amounts = 4, 15*time.Minute, "{0 (unbond all),50,100,200}"
+			depth, deadline, amounts = 5, 15*time.Minute, "{0 (unbond all),50,100,200}"
 		}
 		cfg := bfs.Config{Scenario: "c23/" + tier, MaxDepth: depth, Deadline: deadline}
 		st := bfs.Explore(cfg, run)
